@@ -31,6 +31,12 @@ def reneg(isdir):
              "reach": ["dir-read" if isdir else "file-read"],
              "bounds": f"live Ufs connection through the receive/send loops, dotu={B(u)}: Tversion(128), second Tversion with msize in {{100,128,129,400,8192,9000}}, attach, open, Tread of {what} at offset 0 with the largest count the second Rversion's msize allows; deterministic schedule"} for u in DOTU]
 
+def conc14(quick):
+    specs = [(True, 2, 0), (False, 2, 0)] if quick else [(True, 2, 0), (False, 2, 0), (True, 3, 2), (False, 3, 2)]
+    return [{"harness": "vxH14Conc", "args": [B(u), str(n)], "files": ["api", "ref_wire", "kit_srv", "kit_net", "kit_fs", "ufs_c14conc"], "preempt": 0, "reach": ["done"], "timeout_s": 1500,
+             **({"free_switches": fsw} if fsw else {}),
+             "bounds": f"live Ufs connection, dotu={B(u)}: {n} Treads on one open fid outstanding together (offsets 0, 4, 8; count 3; 10-byte file), every file-system call of the server a scheduling point; " + ("every choice of the next goroutine" if not fsw else f"<= {fsw} non-default choices")} for (u, n, fsw) in specs]
+
 # ---------------- C14 (server part) ----------------
 def c14(L, maxc, wL, wN):
     runs = []
@@ -46,8 +52,8 @@ def c14(L, maxc, wL, wN):
                          "bounds": f"H14.srv write of 0 bytes, dotu={B(u)}"})
     return runs + reneg(False)
 w("C14", {
- "quick": c14(8, 10, 2, 3),
- "thorough": c14(12, 14, 4, 4) + c14(0, 3, 0, 1)[:-2] + c14(1, 3, 1, 2)[:-2],
+ "quick": c14(8, 10, 2, 3) + conc14(True),
+ "thorough": c14(12, 14, 4, 4) + c14(0, 3, 0, 1)[:-2] + c14(1, 3, 1, 2)[:-2] + conc14(False),
  "outside": ["the client half (H14.clnt: Clnt.Read/Write, File helpers) is a separate lemma", "files longer than 12 bytes / counts above 14 (the code's arithmetic does not depend on magnitude beyond the 32/64-bit edges, which are symbolic)",
              "counts >= 2^32-24, for which the generic layer's own guard wraps (C05/C06, finding F9)", "offsets >= 2^63 are not representable as a file offset: error or empty read are both accepted", "real disks, short reads by the kernel"],
  "assumptions": ["oracle: harness/ref_wire.go encodes the expected Rread/Rwrite packet from the reference slice file[off:min(off+count,L)]; the model's WriteAt applies data only when offset+len <= 16 (beyond that only the call arguments are compared)"],
